@@ -171,6 +171,19 @@ pub fn c15(cx: &Ctx, rep: &mut Report) {
         (!ok).then(|| format!("got {got}: not congruent to x*2^32 or outside (-2q, 2q)"))
     });
 
+    // ---- infinity norm (max of |mod+-|): one-hot value sweeps and dense vectors
+    sweep(rep, "infinity_norm[one-hot value sweep]", -(Q - 1), Q - 1, "every representative in (-q, q) at a one-hot position, on two backgrounds", &|v| {
+        for (bg, pos) in [(0i32, (v.unsigned_abs() % 256) as usize), (1000, 255)] {
+            let mut w = [bg; 256];
+            w[pos] = v as i32;
+            let got = i64::from(hk::infinity_norm(&[w]));
+            let want = mod_pm(v, Q).abs().max(i64::from(bg));
+            if got != want {
+                return Some(format!("one-hot {v} at {pos} on background {bg}: got {got} want {want}"));
+            }
+        }
+        None
+    });
     // ---- CoeffFromThreeBytes / CoeffFromHalfByte
     sweep(rep, "coeff_from_three_bytes[CTEST=false]", 0, (1 << 24) - 1, "all 2^24 inputs", &|x| {
         let b = [x as u8, (x >> 8) as u8, (x >> 16) as u8];
